@@ -794,6 +794,133 @@ def eval_unary(acc, op, sa, sample):
     check_operands(acc, opname, method, (sa,), (a,), mini, None)
 
 
+# ------------------------------------------------------------------------------------------------ operands with a history
+# Sequences of value-preserving operations applied to ONE operand (reads whose result is discarded, and in-place unit
+# conversions), followed by one probe operation.  Oracle (differential, no hand-written expectation): the probe on the
+# operand that went through the history gives the same physical result as the probe on an operand freshly built from
+# the very numbers and unit the first one now holds; and the operand still has the physical value it was built with.
+def hist_menu(sa):
+    if sa[0] == "e":
+        return [["str"], ["copy"], ["add_same"]]
+    dims = TABLE[sa[2]][1]
+    menu = [["str"], ["unit"], ["copy"], ["add_same"], ["sum1"]]
+    menu += [["to", un] for un in UNITS if TABLE[un][1] == dims and un != sa[2]][:3]
+    if sa[0] == "h":
+        menu += [["neg"], ["abs"], ["sum"], ["ceil"], ["npmax_empty"]]
+    return menu
+
+
+def apply_hist(a, sa, hop):
+    name = hop[0]
+    if name == "str":
+        str(a)
+        repr(a)
+    elif name == "unit":
+        getattr(a, "unit", None)
+        getattr(a, "magnitude", None)
+    elif name == "add_same":
+        a + mk(sa)
+    elif name == "npmax_empty":
+        a.np_compared_with(_lib["eo"].EmptyExplainableObject(), "max")
+    else:
+        lib_unary(hop, a)
+
+
+def rebuilt(a):
+    """A fresh object holding the numbers and the unit the operand really holds now (read from its data, not from
+    any helper of the class under test)."""
+    eo, u, pd, np, pp = _lib["eo"], _lib["u"], _lib["pd"], _lib["np"], _lib["pp"]
+    if isinstance(a, eo.EmptyExplainableObject):
+        return eo.EmptyExplainableObject()
+    if isinstance(a, eo.ExplainableQuantity):
+        return eo.ExplainableQuantity(u.Quantity(float(a.value.magnitude), a.value.units), "q")
+    qty = a.value["value"].values.quantity
+    df = pd.DataFrame({"value": pp.PintArray(np.array(qty.magnitude, dtype=float), dtype=qty.units)},
+                      index=a.value.index.copy())
+    return eo.ExplainableHourlyQuantities(df, "h")
+
+
+def hist_probes(sa):
+    probes = [("un", op) for op in unary_ops()]
+    probes += [("bin", name) for name in ("add", "sub", "mul", "npmax", "npmin", "sum2", "radd", "rmul")]
+    return probes
+
+
+def run_probe(kind, op, a, sa):
+    if kind == "un":
+        attr = UNARY_ATTR.get(op[0], op[0])
+        if not hasattr(type(a), attr):
+            return "na", None, None
+        return call(lib_unary, op, a)
+    fn, _, need, _ = BIN[op]
+    if need is not None and not hasattr(type(a), need):
+        return "na", None, None
+    return call(fn, a, mk(sa))
+
+
+def eval_history(acc, sa, hist):
+    mini = {"kind": "hist", "as": [sa], "hists": [hist]}
+    for kind, op in hist_probes(sa):
+        a = mk(sa)
+        ok = True
+        for hop in hist:
+            st, _, exc = call(apply_hist, a, sa, hop)
+            if st == "raised":
+                ok = False
+                break
+        if not ok:
+            acc.count("outcome:history-refused")
+            return
+        fresh = rebuilt(a)
+        st1, r1, e1 = run_probe(kind, op, a, sa)
+        st2, r2, e2 = run_probe(kind, op, fresh, sa)
+        if st1 == "na":
+            acc.count("outcome:na")
+            continue
+        acc.evals += 1
+        acc.compared += 1
+        opname = op if kind == "bin" else op[0] + (f"({op[1]})" if len(op) > 1 else "")
+        hname = ">".join(x[0] + (f"({x[1]})" if len(x) > 1 else "") for x in hist)
+        sig = {"clause": "history-dependent-result", "probe": opname.split("(")[0],
+               "history": ">".join(x[0] for x in hist), "kind": spec_kind(sa)}
+        if st1 != st2:
+            acc.violation(sig, {"operand": spec_str(sa), "history": hname, "probe": opname,
+                                "with_history": st1 + (f": {type(e1).__name__}: {e1}"[:120] if e1 else ""),
+                                "fresh": st2 + (f": {type(e2).__name__}: {e2}"[:120] if e2 else "")}, mini)
+            acc.count("outcome:VIOLATION")
+            continue
+        if st1 == "raised":
+            acc.count("outcome:both-refused")
+            continue
+        try:
+            c1, c2 = canon(r1), canon(r2)
+        except Exception as ex:  # noqa
+            c1, c2 = ("other", f"unreadable result: {type(ex).__name__}: {ex}"[:120]), ("other", "?")
+        bad = compare(c1, c2, mag_scale(c2) if c2[0] in ("q", "h") else 0.0) if c1[0] != "other" or c2[0] != "other" \
+            else (None if c1 == c2 else ("result-kind", f"{c1} vs {c2}"))
+        if bad is not None:
+            acc.violation(sig, {"operand": spec_str(sa), "history": hname, "probe": opname, "why": bad[1],
+                                "with_history": render(c1), "fresh": render(c2)}, mini)
+            acc.count("outcome:VIOLATION")
+        else:
+            acc.count("outcome:history-agreed")
+            acc.digests.add("hist:" + digest(c1))
+    # the operand keeps the physical value it was built with through the history alone
+    a = mk(sa)
+    for hop in hist:
+        call(apply_hist, a, sa, hop)
+    check_operands(acc, "history " + ">".join(x[0] for x in hist), "history", (sa,), (a,), mini, None)
+
+
+def histories(sa, maxlen):
+    menu = hist_menu(sa)
+    out, level = [], [[]]
+    for _ in range(maxlen):
+        level = [hh + [m] for hh in level for m in menu]
+        out += level
+    return out
+
+
 def eval_registry(acc):
     """The factor table used by the reference is the library's registry (units.py + custom_units.txt)."""
     u = _lib["u"]
@@ -827,6 +954,10 @@ def run_task(task):
         for sa in task["as"]:
             for op in task["ops"]:
                 eval_unary(acc, op, sa, sample=task.get("sample", False))
+    elif task["kind"] == "hist":
+        for sa in task["as"]:
+            for hist in task["hists"]:
+                eval_history(acc, sa, hist)
     elif task["kind"] == "registry":
         eval_registry(acc)
     else:
@@ -850,6 +981,13 @@ def main(tier):
     uops = unary_ops()
     for i in range(0, len(alpha), 4):
         tasks.append({"kind": "un", "as": alpha[i:i + 4], "ops": uops})
+    hist_len = 2 if tier == "quick" else 3
+    n_hist = 0
+    for sa in alpha:
+        hs = histories(sa, hist_len)
+        n_hist += len(hs)
+        for i in range(0, len(hs), 40):
+            tasks.append({"kind": "hist", "as": [sa], "hists": hs[i:i + 40]})
     engine.start(run_task)
     results = engine.pmap(tasks)
     engine.stop()
@@ -897,7 +1035,10 @@ def main(tier):
         "bounds": (f"all {n}x{n} ordered pairs of the operand alphabet x {len(BIN)} binary operations + {len(LAWS)} laws; "
                    f"all {n} operands x {len(uops)} unary helpers (to() towards {len(UNITS)} units, convert_to_utc from "
                    f"{len(ZONES)} zones, rounding levels {ROUND_LEVELS}); hourly series of length 1-4 in January 2025; "
-                   f"one operation per evaluation (no chains)"),
+                   f"binary / unary parts: one operation per evaluation; history part: every sequence of length <= {hist_len} of "
+                   f"value-preserving operations on one operand ({n_hist} operand histories) followed by each of "
+                   f"{len(unary_ops()) + 8} probe operations, compared with the probe on a freshly rebuilt operand"),
+        "operand_histories": n_hist,
         "explanation": "every evaluation builds fresh operands, runs the real operator, compares result and operands "
                        "with the reference model (bare pint for scalar pairs, dict[hour->float] in base units for hourly)",
     }
